@@ -72,6 +72,16 @@ class FreeClient(Client):
                 self.report(n, ok, s)
                 return [('n', s)]
             return [('n', s)]
+        # (_capa, _size) <- (0, inplaceCapa): `this` becomes an empty inline vector; a heap block it owned must be gone by now
+        if n.get('op') == '=':
+            lhs0 = A.strip(n.get('lhs'))
+            rhs0 = A.strip(n.get('rhs') or {})
+            if isinstance(lhs0, dict) and lhs0.get('k') == 'mem' and lhs0.get('field') and lhs0.get('clsq') == SVB and A.root(lhs0.get('base'), self.linit)[0] == 'this':
+                if lhs0.get('name') == '_capa' and (rhs0.get('v') == 0 or rhs0.get('cv') == 0):
+                    return [('n', s | {'zero'})]
+                if lhs0.get('name') == '_size' and 'zero' in s and rhs0.get('k') == 'ref' and rhs0.get('dk') == 'param':
+                    self.report(n, 'freed' in s or 'noheap' in s, s)
+                    return [('n', s - {'zero'})]
         # `_storage = X` in StdVectorBase
         if n.get('op') == '=':
             lhs = A.strip(n.get('lhs'))
@@ -442,8 +452,10 @@ def stale_read(progs):
 
 # ------------------------------------------------------------------------------ EACH-OTHER
 class EachOtherClient(Client):
-    def __init__(self, linit):
+    def __init__(self, linit, dynamic=False):
         self.linit = linit
+        self.dynamic = dynamic
+        self.unguarded = []
 
     def is_event(self, n):
         return n.get('k') == 'call'
@@ -459,6 +471,8 @@ class EachOtherClient(Client):
         return s
 
     def event(self, n, s):
+        if A.cshort(n) in ('adjustCapacity', 'grow', 'reserve') and n.get('args') and 'noswap' not in s and self.dynamic:
+            self.unguarded.append(n)
         if A.cshort(n) == 'adjustCapacity' and n.get('args'):
             kind, r = A.root(n.get('obj'), self.linit) if n.get('obj') is not None else ('this', {})
             who = 'this' if kind == 'this' else 'other'
@@ -481,8 +495,15 @@ def each_other(progs):
             if short(f['name']) != 'adjustEachOtherCapacity' or f.get('body') is None:
                 continue
             linit = A.local_inits(f['body'])
-            o = Engine(EachOtherClient(linit)).run(f['body'], frozenset(), f.get('inits'))
+            # only where a buffer exchange is possible at all: both operands dynamic vectors (canSwapDynStorage is consulted)
+            dyn = f.get('clsq') == 'amc::vec::DynamicVector' and f.get('params') and 'DynamicGrowingPolicy' in f['params'][0]['t']
+            cl = EachOtherClient(linit, dyn)
+            o = Engine(cl).run(f['body'], frozenset(), f.get('inits'))
             finals = list(o.normal) + [s for s, _ in o.returns]
+            for n_ in cl.unguarded[:1]:
+                rr.add(Finding('EACH-OTHER', '%s|unguarded' % f['key'], prog.site(f, n_),
+                               'a capacity adjustment runs although the two heap buffers could simply be exchanged (not conditioned on canSwapDynStorage being false): '
+                               'swapping two heap-backed vectors then reallocates and relocates elements instead of handing the buffers over', where=f['pname'], unit=prog.uname))
             bad = [s for s in finals if 'canswap' not in s and not ({'adj:this', 'adj:other'} <= s)]
             rr.instance('%s|%s' % (f['key'], f['pname'][:160]), {'function': f['pname'][:200], 'paths': len(finals), 'paths_missing_a_direction': len(bad)})
             if bad:
